@@ -2,6 +2,9 @@
 package c08
 
 import (
+	"strconv"
+	"strings"
+
 	"github.com/trajectoryjp/spatial_id_go/v4/operated"
 
 	. "verif/harness/gen"
@@ -77,6 +80,12 @@ func (p vox) moved(dx, dy, dv int64) vox {
 	q.x = ((p.x+dx)%ww + ww) % ww
 	q.y = ((p.y+dy)%ww + ww) % ww
 	q.f = p.f + dv
+	// stay a valid ID: -2^v <= f < 2^v
+	if vw := int64(1) << uint(p.v); q.f >= vw {
+		q.f = vw - 1
+	} else if q.f < -vw {
+		q.f = -vw
+	}
 	return q
 }
 
@@ -176,6 +185,66 @@ func genList(g *Gen) ([]vox, string) {
 	return []vox{p, p.moved(1, 0, 0)}, "adjacent"
 }
 
+// spell: an accepted non-canonical spelling of the same ID ("+3", "007", "-0"): strconv.ParseInt takes them all
+func spell(g *Gen, p vox) string {
+	out := make([]string, 5)
+	for k, n := range []int64{p.h, p.x, p.y, p.v, p.f} {
+		s := strconv.FormatInt(n, 10)
+		switch g.Intn(4) {
+		case 0:
+			if n >= 0 {
+				s = "+" + s
+			}
+		case 1:
+			z := strings.Repeat("0", 1+g.Intn(3))
+			if n < 0 {
+				s = "-" + z + s[1:]
+			} else {
+				s = z + s
+			}
+		case 2:
+			if n == 0 {
+				s = []string{"-0", "+0", "00", "-00"}[g.Intn(4)]
+			}
+		}
+		out[k] = s
+	}
+	return strings.Join(out, "/")
+}
+
+// long list: 20..100 members around one voxel, with repeats and a few strays
+func genLongList(g *Gen) []vox {
+	p := genVox(g)
+	n := 20 + g.Intn(81)
+	l := make([]vox, 0, n)
+	for len(l) < n {
+		switch g.Intn(6) {
+		case 0:
+			if len(l) > 0 {
+				l = append(l, l[g.Intn(len(l))])
+				continue
+			}
+			fallthrough
+		default:
+			l = append(l, p.moved(g.Int63n(7)-3, g.Int63n(7)-3, g.Int63n(5)-2))
+		}
+	}
+	return l
+}
+
+func zoomTags(l []vox) []string {
+	seen := map[string]bool{}
+	var t []string
+	for _, p := range l {
+		z := zoomTag(p.h)
+		if !seen[z] {
+			seen[z] = true
+			t = append(t, z)
+		}
+	}
+	return t
+}
+
 func ids(l []vox) []string {
 	r := make([]string, len(l))
 	for i, p := range l {
@@ -230,6 +299,17 @@ func runN(r *run.Runner, l []string, H, V int64, h int64, tags []string, triv bo
 	r.Run(run.Case{Prop: "C08", Fn: fN, Tags: t, Trivial: triv, Args: []w.Val{w.Strs(l), w.I(H), w.I(V)}})
 }
 
+// symLayers: layer counts 0..4 at every zoom; the big stencils (n offsets cost about n^2 shifts on both sides) only now and then
+func symLayers(g *Gen) (int64, int64) {
+	for {
+		H, V := g.Int63n(5), g.Int63n(5)
+		n := (2*H + 1) * (2*H + 1) * (2*V + 1)
+		if n <= 150 || (n <= 400 && g.Chance(0.15)) || g.Chance(0.02) {
+			return H, V
+		}
+	}
+}
+
 func runSym(r *run.Runner, name string, id string, H, V int64, tags []string, triv bool) {
 	if name == "SymN" {
 		r.Run(run.Case{Prop: "C08", Fn: name, Tags: append([]string{name}, tags...), Trivial: triv || (H == 0 && V == 0),
@@ -269,7 +349,7 @@ func sweep(r *run.Runner) {
 									continue
 								}
 								runN(r, []string{id}, H, V, h, tags, false)
-								if H <= 2 && V <= 1 {
+								if H <= 4 && (2*H+1)*(2*H+1)*(2*V+1) <= 250 && (h == 2 || V <= 2) {
 									runSym(r, "SymN", id, H, V, tags, false)
 								}
 							}
@@ -285,7 +365,7 @@ func sweep(r *run.Runner) {
 }
 
 func init() {
-	Scale["C08"] = 4000
+	Scale["C08"] = 3000
 	Registry["C08"] = func(r *run.Runner, g *Gen, n int) {
 		r.Register(fixedFn(f6, operated.Get6spatialIdsAdjacentToFaces), fixedFn(f8, operated.Get8spatialIdsAroundHorizontal),
 			fixedFn(f26, operated.Get26spatialIdsAroundVoxel), fnN(),
@@ -300,6 +380,28 @@ func init() {
 			H, V int64
 		}{{"1/0/0/3/5", 3, 0}, {"1/1/0/3/5", 4, 0}, {"1/0/1/0/-1", 3, 1}, {"0/0/0/0/0", 4, 4}, {"2/0/3/2/-4", 6, 0}, {"2/3/0/2/3", 5, 1}} {
 			runN(r, []string{c.id}, c.H, c.V, int64(c.id[0]-'0'), []string{"fixed-witness"}, false)
+		}
+		// capacity: an empty list just below the bound (2H+1)^2 (2V+1) <= 2^16, and a medium stencil
+		runN(r, []string{}, 127, 0, 0, []string{"capacity-edge"}, false)
+		runN(r, []string{"5/3/31/5/-2"}, 10, 10, 5, []string{"capacity-medium"}, false)
+		// the same (x, y) at neighbouring horizontal zooms, back to back, through every fixed-size query (a cache keyed without the zoom
+		// would answer the second call with the first call's wrapped indices): last column/row of zoom h is interior at zoom h+1
+		for _, name := range []string{f6, f8, f26} {
+			for _, c := range [][3]string{{"3/7/7/3/0", "4/7/7/4/0", "3/7/7/3/0"}, {"4/0/15/4/-1", "5/0/15/5/-1", "3/0/7/3/-1"},
+				{"1/1/0/2/1", "2/1/0/2/1", "0/0/0/2/1"}, {"2/3/0/2/1", "5/9/9/5/1", "2/3/0/2/1"}, {"3/7/0/3/0", "3/7/0/4/0", "3/7/0/3/1"}} {
+				for _, id := range c {
+					runFixed(r, name, id, []string{"fixed-sequence", "consecutive"}, false)
+				}
+			}
+		}
+		// the same voxel / the same list with one layer count changed at a time, back to back (a cache keyed without one of the arguments)
+		for _, id := range []string{"3/7/7/3/0", "20/5/1048575/20/-3"} {
+			for _, hv := range [][2]int64{{1, 1}, {1, 2}, {2, 2}, {2, 1}, {1, 1}, {0, 1}, {1, 0}, {0, 0}, {1, 1}} {
+				runN(r, []string{id}, hv[0], hv[1], 3, []string{"fixed-sequence", "consecutive"}, false)
+			}
+		}
+		for _, l := range [][]string{{"3/7/7/3/0", "3/0/7/3/0"}, {"3/0/7/3/0", "3/7/7/3/0"}, {"3/7/7/3/0"}, {"3/7/7/3/0", "3/0/7/3/0", "3/7/7/3/0"}} {
+			runN(r, l, 1, 1, 3, []string{"fixed-sequence", "consecutive"}, false)
 		}
 		if g.Tier == "thorough" {
 			sweep(r)
@@ -316,7 +418,34 @@ func init() {
 				h := l[0].h
 				tags := append(voxTags(l[0]), "consecutive", "list="+lk)
 				sl := ids(l)
-				switch g.Intn(5) {
+				switch g.Intn(8) {
+				case 5, 6, 7: // one fixed-size query on the same (x, y) at two horizontal zooms (edge of the coarser = interior of the finer), at another
+					// vertical zoom and another f, then on an interior voxel; followed by the symmetry observation of the first ID
+					p := l[0]
+					name := []string{f6, f8, f26}[g.Intn(3)]
+					if p.h >= 35 {
+						p.h = 34
+						p.x, p.y = p.x/2, p.y/2
+					}
+					ww := int64(1) << uint(p.h)
+					p.x, p.y = g.Pick(0, ww-1, p.x), g.Pick(0, ww-1, p.y)
+					q := p
+					q.h = p.h + 1
+					q2 := p
+					q2.v = (p.v + 1) % 36
+					q2.f = 0
+					q3 := p.moved(0, 0, 1)
+					q4 := q
+					q4.x, q4.y = ww, ww/2+1
+					seq := []vox{p, q, p, q2, q3, q4}
+					if g.Chance(0.5) {
+						seq = []vox{q, p, q, q4, q2, p}
+					}
+					for _, z := range seq {
+						runFixed(r, name, z.id(), append(voxTags(z), "consecutive", "cross-zoom"), false)
+					}
+					runSym(r, map[string]string{f6: "Sym6", f8: "Sym8", f26: "Sym26"}[name], p.id(), 0, 0, append(voxTags(p), "consecutive"), false)
+					i += 6
 				case 0: // the same list with other layer counts
 					H, V := genLayers(g, h)
 					runN(r, sl, H, V, h, tags, false)
@@ -360,8 +489,7 @@ func init() {
 						}
 					}
 					runN(r, []string{q.id()}, H, V, q.h, append(voxTags(q), "consecutive"), false)
-					q2 := p
-					q2.f = p.f + 1
+					q2 := p.moved(0, 0, 1)
 					runN(r, []string{q2.id()}, H, V, p.h, tags, false)
 					runN(r, []string{p.id()}, H, V, p.h, tags, false)
 					i += 3
@@ -375,14 +503,33 @@ func init() {
 				}
 			case kind < 55:
 				l, lk := genList(g)
+				long := g.Chance(0.06)
+				if long {
+					l, lk = genLongList(g), "long"
+				}
 				h := int64(0)
 				tags := []string{"list=" + lk}
 				if len(l) > 0 {
 					h = l[0].h
-					tags = append(tags, voxTags(l[0])...)
+					tags = append(tags, voxTags(l[0])[1:]...)
+					tags = append(tags, zoomTags(l)...)
 				}
 				H, V := genLayers(g, h)
+				if long { // keep (2H+1)^2 (2V+1) * len around 4000 at most
+					H, V = g.Pick(0, 1, 1, 1, 2), g.Pick(0, 0, 1, 1)
+					if H == 2 {
+						V = 0
+					}
+				}
 				sl := ids(l)
+				if g.Chance(0.08) {
+					for k := range sl {
+						if g.Chance(0.5) {
+							sl[k] = spell(g, l[k])
+						}
+					}
+					tags = append(tags, "non-canonical-spelling")
+				}
 				triv := false
 				if g.Chance(0.04) && len(sl) > 0 {
 					sl[g.Intn(len(sl))] = g.Malformed()
@@ -405,14 +552,13 @@ func init() {
 				id, tags, triv := p.id(), voxTags(p), false
 				if g.Chance(0.04) {
 					id, tags, triv = g.Malformed(), []string{"malformed"}, true
+				} else if g.Chance(0.08) {
+					id, tags = spell(g, p), append(tags, "non-canonical-spelling")
 				}
 				runFixed(r, []string{f6, f8, f26}[(kind-55)/10], id, tags, triv)
 			default:
 				p := genVox(g)
 				id, tags, triv := p.id(), voxTags(p), false
-				if g.Chance(0.04) {
-					id, tags, triv = g.Malformed(), []string{"malformed"}, true
-				}
 				switch g.Intn(5) {
 				case 0:
 					runSym(r, "Sym6", id, 0, 0, tags, triv)
@@ -421,10 +567,7 @@ func init() {
 				case 2:
 					runSym(r, "Sym26", id, 0, 0, tags, triv)
 				default:
-					H, V := g.Int63n(3), g.Int63n(3)
-					if p.h <= 2 && g.Chance(0.4) {
-						H, V = g.Pick(3, 4, 5), 0
-					}
+					H, V := symLayers(g)
 					runSym(r, "SymN", id, H, V, append(tags, Tag("H=%d", H), Tag("V=%d", V)), triv)
 				}
 			}
